@@ -27,7 +27,7 @@ pub struct Aligned {
     pub jump_cells: Vec<String>,
 }
 
-/// Accepts only `LoadName(n != __tera_context) LoadAttr* [WriteTop]` <-> `LoadPath/WritePath`, all other
+/// Accepts only `LoadName(n) LoadAttr* [WriteTop]` <-> `LoadPath/WritePath`, all other
 /// instructions identical and in order; every jump must land on the image of its old target, and no old target may
 /// lie strictly inside a merged group.
 pub fn align(orig: &[String], opt: &[String]) -> Result<Aligned, (String, String)> {
@@ -44,9 +44,8 @@ pub fn align(orig: &[String], opt: &[String]) -> Result<Aligned, (String, String
             if orig.get(i) != Some(&format!("LoadName({:?})", p[0])) {
                 return Err(("merged-group-not-a-variable-path".into(), format!("group at new {j}: orig[{i}]={:?} is not LoadName({:?})", orig.get(i), p[0])));
             }
-            if p[0] == "__tera_context" {
-                return Err(("magic-variable-fused".into(), format!("`__tera_context` was merged at new {j}")));
-            }
+            // (whether the dump variable `__tera_context` may head a merged group is not a structural question: the
+            // property allows any variable path; that the merged form renders the same is the differential's business)
             map[i] = j;
             i += 1;
             for a in &p[1..] {
